@@ -74,6 +74,30 @@ type tv2n struct {
 	ID    int64     `parquet:"id"`
 }
 
+// the group that holds the variant is a struct in the file and is read into a
+// pointer (required -> optional ancestor of the variant), the variant first,
+// a column added after it and the fields permuted
+type tvHolder struct {
+	K   int32 `parquet:"k"`
+	Var any   `parquet:"var,variant"`
+}
+
+type tv1p struct {
+	ID    int64    `parquet:"id"`
+	Outer tvHolder `parquet:"outer"`
+}
+
+type tvHolderB struct {
+	Var   any    `parquet:"var,variant"`
+	Added *int64 `parquet:"added,optional"`
+	K     int32  `parquet:"k"`
+}
+
+type tv2p struct {
+	Outer *tvHolderB `parquet:"outer,optional"`
+	ID    int64      `parquet:"id"`
+}
+
 func declaredTypes() map[string]parquet.Node {
 	return map[string]parquet.Node{
 		"string": parquet.String(),
@@ -135,9 +159,14 @@ func typedVariants(c *core.Ctx) {
 			nested := parquet.NewSchema("root", parquet.Group{
 				"id": parquet.Int(64), "items": parquet.Repeated(parquet.Group{"k": parquet.Int(32), "var": sv}),
 			})
+			// the variant itself optional in the file: null variants under the pointer
+			holder := parquet.NewSchema("root", parquet.Group{
+				"id": parquet.Int(64), "outer": parquet.Group{"k": parquet.Int(32), "var": parquet.Optional(sv)},
+			})
 			rows := make([]tv1, nr)
 			wa, wb, wc := make([]tv2a, nr), make([]tv2b, nr), make([]tv2c, nr)
 			rowsN, wn := make([]tv1n, nr), make([]tv2n, nr)
+			rowsP, wp := make([]tv1p, nr), make([]tv2p, nr)
 			for j := range rows {
 				x := genVariantValue(rng, 2).GoValue()
 				r := tv1{ID: int64(rng.Intn(1000)), Name: fmt.Sprint("n", rng.Intn(100)), Var: x}
@@ -156,11 +185,18 @@ func typedVariants(c *core.Ctx) {
 					w.Items = append(w.Items, tvItemB{Var: y, K: int32(k)})
 				}
 				rowsN[j], wn[j] = rn, w
+				var z any // every third variant is null
+				if rng.Intn(3) != 0 {
+					z = genVariantValue(rng, 1).GoValue()
+				}
+				rowsP[j] = tv1p{ID: r.ID, Outer: tvHolder{K: int32(j), Var: z}}
+				wp[j] = tv2p{ID: r.ID, Outer: &tvHolderB{Var: z, K: int32(j)}}
 			}
 			typedPairSchema(c, "variant:"+tn+"/added-before", flat, rows, wa)
 			typedPairSchema(c, "variant:"+tn+"/added-after", flat, rows, wb)
 			typedPairSchema(c, "variant:"+tn+"/added-around", flat, rows, wc)
 			typedPairSchema(c, "variant:"+tn+"/in-repeated-group", nested, rowsN, wn)
+			typedPairSchema(c, "variant:"+tn+"/in-group-read-as-pointer", holder, rowsP, wp)
 		}
 	}
 }
